@@ -4,6 +4,7 @@ import ast, json, os, sys
 HERE = os.path.dirname(os.path.dirname(os.path.abspath(__file__)))
 props = [json.loads(l) for l in open(os.path.join(HERE, 'properties.jsonl'))]
 checks, na = [], []
+all_modules = set()
 for p in props:
     pid = p['id']
     path = os.path.join(HERE, 'harness', 'props', pid.lower() + '.py')
@@ -13,6 +14,8 @@ for p in props:
         for node in tree.body:
             if isinstance(node, ast.Assign) and getattr(node.targets[0], 'id', None) == 'MANIFEST':
                 meta = ast.literal_eval(node.value)
+            if isinstance(node, ast.Assign) and getattr(node.targets[0], 'id', None) == 'MODULES':
+                all_modules |= set(ast.literal_eval(node.value))
     if meta is None:
         na.append({'property_id': pid, 'reason': 'check not built yet in this revision (planned, see DESIGN.md section 5)'})
         continue
@@ -29,7 +32,9 @@ for p in props:
     })
 man = {
     'version': 1,
-    'setup_cmd': '/venv/bin/python translator/gen.py /repo lean/DsdVerif/Gen >/dev/null && cd lean && lake build',
+    # regenerate Gen/ from the working tree, then build the driver and every module a check audits once, in parallel (the modules
+    # cannot be imported into one aggregate: some lemma files that are never used together define the same names)
+    'setup_cmd': '/venv/bin/python translator/gen.py /repo lean/DsdVerif/Gen >/dev/null && cd lean && lake build DsdVerif.Driver ' + ' '.join(sorted(all_modules)),
     'hooks': {'guard': 'DSDOBJECTS_VERIF', 'enable': 'no source hooks are needed: every observation uses the public API (DESIGN.md 2.7)',
               'baseline_off_cmd': 'cd /repo && /venv/bin/python -m pytest -ra -q -p no:cacheprovider --timeout=900 --continue-on-collection-errors',
               'source_commits': [], 'add_only': True},
